@@ -370,7 +370,7 @@ func debugPortDiff(repo string) {
 		oa, ob := lcsDiff(a, b)
 		fmt.Printf("== %s: %d/%d statements, only-tengo %d, only-ref %d\n", name, len(a), len(b), len(oa), len(ob))
 		for _, s := range oa {
-			fmt.Printf("   T %s   [%s]\n", w.Src(s.Node), w.SitePos(s.Node.Pos()))
+			fmt.Printf("   T %s   [%s]\n      = %s\n", w.Src(s.Node), w.SitePos(s.Node.Pos()), s.Text)
 		}
 		for _, s := range ob {
 			fmt.Printf("   R %.160s\n", s.Text)
